@@ -188,16 +188,20 @@ type concTarget struct {
 	autoadd func() (uint32, error)
 	remove  func(id uint32) error
 	search  func(two bool) ([]uint32, error)
+	// multi-query variant (vector kinds, bm25): nq queries, aggregation kind; nil = not offered
+	searchMulti func(nq int, agg string, g, k int) ([]uint32, error)
 	// scored kinds (score = true metric distance: flat, hnsw, ivf, hybrid over flat in vector mode):
 	// the search with its queries and (id, score) pairs; vecOf = the vector added under an id
 	searchScored func(two bool, q []float32) (qs [][]float32, ids []uint32, scores []float32, err error)
-	vecOf        func(id uint32) []float32
-	flush        func() error
-	write        func() error
-	compact      func()
-	rotate       func()
-	close        func() error
-	cleanup      func()
+	// scored multi-query variant: the queries, aggregation kind and scored hits
+	searchScoredMulti func(nq int, agg string, g, k int) (qs [][]float32, ids []uint32, scores []float32, err error)
+	vecOf             func(id uint32) []float32
+	flush             func() error
+	write             func() error
+	compact           func()
+	rotate            func()
+	close             func() error
+	cleanup           func()
 }
 
 func trainVecs(n int) []comet.VectorNode {
@@ -253,7 +257,29 @@ func vectorTarget(idx comet.VectorIndex, nprobe int, scored bool) *concTarget {
 			return err
 		},
 	}
+	multiQs := func(nq, g, k int) [][]float32 {
+		qs := make([][]float32, nq)
+		for i := range qs {
+			qs[i] = concQuery(g+3*i, k+11*i)
+		}
+		return qs
+	}
+	t.searchMulti = func(nq int, agg string, g, k int) ([]uint32, error) {
+		res, err := idx.NewSearch().WithK(bigK).WithNProbes(nprobe).WithEfSearch(4096).
+			WithScoreAggregation(comet.ScoreAggregationKind(agg)).WithQuery(multiQs(nq, g, k)...).Execute()
+		return vecIDs(res), err
+	}
 	if scored {
+		t.searchScoredMulti = func(nq int, agg string, g, k int) ([][]float32, []uint32, []float32, error) {
+			qs := multiQs(nq, g, k)
+			res, err := idx.NewSearch().WithK(bigK).WithNProbes(nprobe).WithEfSearch(4096).
+				WithScoreAggregation(comet.ScoreAggregationKind(agg)).WithQuery(qs...).Execute()
+			sc := make([]float32, len(res))
+			for i, h := range res {
+				sc[i] = h.GetScore()
+			}
+			return qs, vecIDs(res), sc, err
+		}
 		t.vecOf = concVec
 		t.searchScored = func(two bool, q []float32) ([][]float32, []uint32, []float32, error) {
 			qs := [][]float32{q}
@@ -325,6 +351,15 @@ func newConcTarget(kind string) (*concTarget, error) {
 					s = s.WithQuery("common")
 				}
 				res, err := s.Execute()
+				out := make([]uint32, len(res))
+				for i, h := range res {
+					out[i] = h.GetId()
+				}
+				return out, err
+			},
+			searchMulti: func(nq int, agg string, g, k int) ([]uint32, error) {
+				qs := []string{"common", "w1 w2", "w3", "w0 w4"}[:nq]
+				res, err := idx.NewSearch().WithK(bigK).WithScoreAggregation(comet.ScoreAggregationKind(agg)).WithQuery(qs...).Execute()
 				out := make([]uint32, len(res))
 				for i, h := range res {
 					out[i] = h.GetId()
@@ -543,6 +578,57 @@ func execConc(c *concCase) []string {
 			out := guard(func() string { return concErr(t.remove(op.ID)) })
 			logf("op remove %d %d %d %d => %s", g, op.ID, inv, clk.Add(1), out)
 		case "search", "search2":
+			if op.Op == "search2" && (t.searchScoredMulti != nil || t.searchMulti != nil) {
+				// 2..4 queries, aggregation sum / max / mean (derived from the op's query number)
+				nq, agg := 2+(op.Q/3)%3, []string{"sum", "max", "mean"}[op.Q%3]
+				inv := clk.Add(1)
+				var qs [][]float32
+				var ids []uint32
+				var scs []float32
+				out := guard(func() string {
+					var err error
+					if t.searchScoredMulti != nil {
+						qs, ids, scs, err = t.searchScoredMulti(nq, agg, g, op.Q)
+					} else {
+						ids, err = t.searchMulti(nq, agg, g, op.Q)
+					}
+					return concErr(err)
+				})
+				resp := clk.Add(1)
+				if out != "ok" {
+					logf("op search %d %d %d => %s", g, inv, resp, out)
+					return
+				}
+				if scs == nil {
+					// unscored: keep duplicates visible to the driver (no sorting away)
+					hs := make([]string, len(ids))
+					for i, id := range ids {
+						hs[i] = fmt.Sprint(id)
+					}
+					sort.Strings(hs)
+					h := "-"
+					if len(hs) > 0 {
+						h = strings.Join(hs, ",")
+					}
+					logf("op search %d %d %d => ok %s", g, inv, resp, h)
+					return
+				}
+				qh := make([]string, len(qs))
+				for i, q := range qs {
+					qh[i] = core.VecHex(q)
+				}
+				hits := make([]string, len(ids))
+				for i := range ids {
+					hits[i] = fmt.Sprintf("%d:%s", ids[i], core.Hex32(scs[i]))
+				}
+				sort.Strings(hits)
+				hs := "-"
+				if len(hits) > 0 {
+					hs = strings.Join(hits, ",")
+				}
+				logf("op search %d %d %d %s %s => ok %s", g, inv, resp, strings.Join(qh, ";"), agg, hs)
+				return
+			}
 			if t.searchScored != nil && !(c.Kind == "hybrid" && op.Op == "search2") {
 				inv := clk.Add(1)
 				var qs [][]float32
